@@ -79,7 +79,7 @@ type c17Cache struct {
 	storedCrt []byte
 }
 
-func (c *c17Cache) GetKey() (crypto.Signer, error)                 { return nil, fmt.Errorf("not used") }
+func (c *c17Cache) GetKey() (crypto.Signer, error)                  { return nil, fmt.Errorf("not used") }
 func (c *c17Cache) SetToken(domain string, uri, token string) error { return nil }
 func (c *c17Cache) GetToken(domain, uri string) string              { return "" }
 func (c *c17Cache) GetTLSSecretContent(secretName string) (*acme.TLSSecret, error) {
@@ -373,7 +373,7 @@ func init() {
 }
 
 func TestC17Signer(t *testing.T) {
-	runProperty(t, "C17", genC17Sign, execC17Sign)
+	runPropertyAs(t, "C17", "C17S", genC17Sign, execC17Sign)
 }
 
 func TestC17Queue(t *testing.T) {
